@@ -27,7 +27,7 @@ SPEC = {
     "codes": {1: "model_eq_impl (C01: Gallina FSM/LogOp/dsstate model driven by the observed Raft schedule)",
               2: "spec_okb (C01: every replica = replay of a prefix of the one committed sequence, nothing skipped, acknowledged ops "
                  "in the sequence and visible on the committer, tracker told what is stored)"},
-    "tags": {1: "origins-undecodable-raft", 2: "badutf8-acknowledged-poisons-state", 3: "snapshot-persist-not-point-in-time"},
+    "tags": {1: "origins-undecodable-raft", 3: "snapshot-persist-not-point-in-time"},
     "trusted": ["harness/raft/c01_rig_test.go: guard FSM (records Apply/Snapshot/Persist/Restore under one mutex, recovers panics), "
                 "recording PinTracker RPC service, redirect service standing for ConsensusRPCAPI",
                 "hashicorp/raft v1.1.1 (replication, commitment, snapshot install), its in-memory stores and transport",
